@@ -311,4 +311,34 @@ def rule_d(ctx: Ctx) -> None:
                 'protect_status; build() calls clear() before any fill (dominance).')
 
 
-RULES = [rule_a, rule_b, rule_c, rule_d]
+def rule_e(ctx: Ctx) -> None:
+    """Splitting declarations over documents: a per-document setting that a component's parser writes on *its own* schema document
+    (`self.schema.<attr> = …`) must also be resolved for every other document of the build, in a loop over all schemas."""
+    rule = 'C09.e'
+    idx = ctx.idx
+    written = {}
+    for f in idx.iter_functions('validators'):
+        if isinstance(f.node, ast.Lambda) or f.cls is None:
+            continue
+        for s_ in walk_no_nested(f.node):
+            if isinstance(s_, ast.Assign) and isinstance(s_.targets[0], ast.Attribute) and text(s_.targets[0].value) == 'self.schema':
+                written.setdefault(s_.targets[0].attr, []).append((f, s_))
+    ctx.floor(rule, 'per-document settings written by component parsers', len(written), 1)
+    gb = idx.func(f'{B}.GlobalMaps.build')
+    g = cfg_of(ctx, gb)
+    for attr, sites in sorted(written.items()):
+        resolved = [n for n in g.nodes if n.kind == 'stmt' and isinstance(n.ast, ast.Assign) and text(n.ast.targets[0]) == f'schema.{attr}'
+                    and any(t.startswith('for schema in ') and lab == 'T' for t, lab in guards(ctx, gb, n))]
+        # at least one resolution binds a component (not just a reset to None)
+        binds = [n for n in resolved if not (isinstance(n.ast.value, ast.Constant) and n.ast.value.value is None)]
+        ok = bool(binds)
+        f0, s0 = sites[0]
+        ctx.ob(rule, f'`schema.{attr}` (written by {f0.qualname.split(".", 2)[-1]} on the declaring document only) is resolved for every document '
+                     f'in GlobalMaps.build', gb.loc(binds[0].ast) if binds else gb.loc(), ok,
+               '' if ok else f'only the document that declares the component gets `{attr}` bound: moving the declaration into an included document '
+               f'of the same namespace changes the other documents\' components', key=f'GlobalMaps.build|per-document|{attr}')
+    ctx.explain('C09.e: every attribute that a component parser writes on self.schema is also assigned inside a `for schema in schemas` '
+                'loop of GlobalMaps.build.')
+
+
+RULES = [rule_a, rule_b, rule_c, rule_d, rule_e]
